@@ -150,6 +150,8 @@ def run(chk):
                  sample=dict(history=[(st["a"], st["p"], st["i"], st["j"]) for st in hist], model_taint=taint, outcomes=outs[:3]) if k % 10 == 1 else None)
         chk.trace_validated()
         if fails:
+            kf = fails[0]["step"]
+            taint = sorted(hist[kf]["tb"]) if 0 < kf < len(hist) else taint
             chk.fail_or_known(f"history {[(st['a'], st['p'], st['i'], st['j']) for st in hist]}: process {fails[0].get('proc')} step "
                               f"{fails[0]['step']} {fails[0]['what']}: {fails[0]['err']}", replay=dict(history=hist, outcomes=outs, taint=taint),
                               taint=taint, kind="ship")
